@@ -496,6 +496,16 @@ func (c *Client) completeCommand(cmd command, err error) {
 				PermanentFlags: cmd.data.PermanentFlags,
 			}
 			c.mutex.Unlock()
+		} else {
+			// A failed SELECT or EXAMINE leaves no mailbox selected (RFC
+			// 9051 section 6.3.2); IMAP4rev1 servers don't send a CLOSED
+			// response code in this case
+			c.mutex.Lock()
+			if c.state == imap.ConnStateSelected {
+				c.state = imap.ConnStateAuthenticated
+				c.mailbox = nil
+			}
+			c.mutex.Unlock()
 		}
 	case *unselectCommand:
 		if err == nil {
